@@ -321,6 +321,7 @@ class Interp:
         self.feas_timeout = int(os.environ.get("PYVC_FEAS_MS", "400"))
         self.store_hook = None                   # optional callback(target array value) for frame analysis
         self.lookup_busy = set()
+        T.DECIDER = self.decide
         lib.interp = self
 
     # ------------------------------------------------------------------------------------------- modules
@@ -416,6 +417,17 @@ class Interp:
         r = s.check()
         s.pop()
         return r != z3.unsat
+
+    def decide(self, cond):
+        """True / False when the path hypotheses decide cond, else None (used to canonicalise shape terms)."""
+        try:
+            if self.implied(cond):
+                return True
+            if self.implied(z3.Not(cond)):
+                return False
+        except z3.Z3Exception:
+            return None
+        return None
 
     def implied(self, cond):
         """True only if the current hypotheses provably imply cond (quick check)."""
